@@ -363,7 +363,8 @@ class Ctx:
             return
         rp = os.path.join(REPLAY, "%s_%s_%d.txt" % (self.pid, self.tier, n))
         if replay_src and os.path.exists(replay_src):
-            shutil.copyfile(replay_src, rp)
+            if os.path.abspath(replay_src) != os.path.abspath(rp):
+                shutil.copyfile(replay_src, rp)
         else:
             with open(rp, "w") as f:
                 f.write((replay_text or what) + "\n")
